@@ -313,12 +313,13 @@ def _siblings(ctx, trs_to_dict, construct):
                 break               # the next component's block starts
             if on:
                 out.append(tx)
-                if tx.startswith(f"if {var} != "):
+                if tx.startswith('if ') and f"{var} != " in tx.split(':')[0]:
                     break
         return ' ; '.join(out)
     def shape(txt):
         # component-neutral shape: twp/rge -> C, ns/ew -> D (word parts of identifiers)
         txt = re.sub(r"(?i)twp|rge", 'C', txt)
+        txt = re.sub(r"'[nsewNSEW]'", "'L'", txt)        # the direction letters of the component
         return re.sub(r"(?<![A-Za-z])(ns|ew|NS|EW)(?![A-Za-z])|(?<=_)(ns|ew|NS|EW)\b|\b(ns|ew)(?=[._])", 'D', txt)
     a, b = shape(block('twp')), shape(block('rge'))
     ctx.tri(bool(b) and a == b, bool(a) and bool(b) and a != b, 'SIB', 'construct_trs: Rge block is the Twp block under renaming',
